@@ -65,12 +65,12 @@ Fixpoint span_name (s : str) : str * str :=
 Definition has_nl (s : str) : bool := memb c_nl s.
 
 (** the pattern of types.rs drain_env_tokens: one or more of [a-zA-Z0-9_], an equals sign,
-    then dot-star to the end (dot does not match a newline).  First match = the name is
+    then dot-star to the end (the pattern carries the s flag: the rest may hold newlines).  First match = the name is
     everything before the first equals sign. *)
 Definition split_env_loose (s : str) : option (str * str) :=
   let (n, r) := span_name s in
   match n, r with
-  | _ :: _, c :: v => if (c =? c_eq) && negb (has_nl v) then Some (n, v) else None
+  | _ :: _, c :: v => if (c =? c_eq) then Some (n, v) else None
   | _, _ => None
   end.
 
